@@ -51,6 +51,11 @@ pub enum Ret {
 
 /// Scratch directory for images (tmpfs if available), unique per process.
 pub fn scratch_dir() -> PathBuf {
+    static DIR: std::sync::OnceLock<PathBuf> = std::sync::OnceLock::new();
+    DIR.get_or_init(make_scratch_dir).clone()
+}
+
+fn make_scratch_dir() -> PathBuf {
     let base = if Path::new("/dev/shm").is_dir() {
         PathBuf::from("/dev/shm")
     } else {
@@ -70,16 +75,19 @@ thread_local! {
     static THREAD_FILE: RefCell<Option<PathBuf>> = const { RefCell::new(None) };
 }
 
-/// A scratch file path private to the calling thread.
+/// A scratch file path private to the calling thread (own directory per
+/// thread: creating files in one shared directory serialises on its lock).
 pub fn thread_file(tag: &str) -> PathBuf {
     let base = THREAD_FILE.with(|t| {
         let mut t = t.borrow_mut();
         if t.is_none() {
-            *t = Some(scratch_dir().join(format!("t{:?}", std::thread::current().id()).replace(['(', ')'], "")));
+            let d = scratch_dir().join(format!("t{:?}", std::thread::current().id()).replace(['(', ')'], ""));
+            std::fs::create_dir_all(&d).expect("thread scratch dir");
+            *t = Some(d);
         }
         t.clone().unwrap()
     });
-    PathBuf::from(format!("{}.{tag}", base.display()))
+    base.join(tag)
 }
 
 /// Build the real graph of a right tree: node i gets id `ids[i]`.
